@@ -61,6 +61,20 @@ def lock_acquire(ctx):
     rpc_call(ctx, [], {})
 
 
+def lock_for(ctx, args, kwargs):
+    """self._save_method_locks.setdefault(key, Lock()): THE lock of one process unit. Obligation: the key is the engine id alone, so that
+    every save for that unit, whoever issues it, contends for the same lock"""
+    from pyvc.smt import SVs as _S
+    ok = z3.BoolVal(False)
+    if args and args[0].term is not None and ctx.local("engine_id") is not None:
+        ok = args[0].term == ctx.local("engine_id").term
+    ctx.check("the-save-lock-is-keyed-by-the-engine-id-alone", ok, "call-site")
+    return ctx.fresh("lock", None)
+
+
+lock_for.modifies = []
+
+
 def is_error(ctx, args, kwargs):
     return ctx.fresh("is_error", "bool")
 
@@ -94,7 +108,7 @@ def pre_commit(ctx, args, kwargs):
 
 
 pre_commit.modifies = []
-CALLS = dict(BASE_CALLS, **{"asyncio.Lock": opaque("lock"), "self._save_method_locks.setdefault": opaque("lock"),"copy.copy": copy_copy, "self.dispatcher.rpc_call": rpc_call, "AM.MethodMsg": opaque("msg"),
+CALLS = dict(BASE_CALLS, **{"asyncio.Lock": opaque("lock"), "self._save_method_locks.setdefault": lock_for,"copy.copy": copy_copy, "self.dispatcher.rpc_call": rpc_call, "AM.MethodMsg": opaque("msg"),
                             "self._engine_data_map.get": pre_commit, "self.publish_new_contributor_notification": noop,
                             "engine_data.contributors.add": noop})
 
